@@ -38,7 +38,7 @@ CHECK = dict(
 
 
 def shards(tier, seed, scale):
-    per = 36 if tier == "quick" else 600
+    per = 36 if tier == "quick" else 1500
     return common.mk_shards(16, seed, tier, per_shard=per, scale=scale)
 
 
